@@ -446,6 +446,12 @@ func (gr GithubReporter) fixCommentLine(dst any, p PendingComment) (string, int)
 
 	line := p.line
 	diffs := parseDiffLines(file.GetPatch())
+	if p.anchor == checks.AnchorBefore {
+		// Problems on removed rules carry line numbers of the old version of the file.
+		if dl, ok := removedLineFor(diffs, p.line); ok {
+			return "LEFT", dl.old
+		}
+	}
 	dl, ok := diffLineFor(diffs, p.line)
 	switch {
 	case ok && dl.wasModified && p.anchor == checks.AnchorAfter:
@@ -458,7 +464,7 @@ func (gr GithubReporter) fixCommentLine(dst any, p PendingComment) (string, int)
 		// Comment on unmodified line.
 		// Find first modified line and put it there.
 		for _, d := range diffs {
-			if !d.wasModified {
+			if !d.wasModified || d.wasRemoved {
 				continue
 			}
 			line = d.new
